@@ -12,6 +12,8 @@ import WpModel.Lemmas.ReplacedBg
 import WpModel.Model.ReplacedBg
 import WpModel.Model.ImageDraw
 import WpModel.Model.RasterEmbed
+import WpModel.Model.ReplacedDoc
+import WpModel.Lemmas.ReplacedDoc
 
 set_option linter.unusedSimpArgs false
 set_option linter.unusedVariables false
@@ -96,7 +98,7 @@ example : rbwCore ⟨none, none, some 2⟩ ⟨100, false⟩
   ((used_size_one_auto_keeps_ratio ⟨none, none, some 2⟩ _ _ 30 2 rfl (by norm_num)).1 rfl rfl).1
 
 /-- The remaining rows of the 10.3.2 table, as equations of the model (`rbwCore`): point 1
-(intrinsic width), point 2 (height · ratio), point 4, point 5; point 3 is `used_size_ratio_only_partial`. -/
+(intrinsic width), point 2 (height · ratio), point 4, point 5; point 3 is `used_size_ratio_only`. -/
 theorem used_width_table (i : Intr) (cb : Cb) (b : RBox) (hw : b.width = none) :
     (∀ iw, b.height = none → i.w = some iw → rbwCore i cb b = .ok { b with width := some iw }) ∧
     (∀ ih r, b.height = none → i.w = none → i.ratio = some r → i.h = some ih →
@@ -118,12 +120,12 @@ theorem used_height_table (i : Intr) (b : RBox) (w : Rat) (hw : b.width = some w
    fun hr hih => rbhCore_default i b w hw hh hr hih⟩
 
 /-- Point 3 of 10.3.2 (only a ratio is known, both sizes auto): the width comes from the
-block-level width equation *applied to whatever the caller passes as containing block*.
-FULL STATEMENT (false of the code, see `Witness.abs_replaced_ratio_only_uses_cb_x`): "…applied to
-the containing block of the box".  For the in-flow callers (`atomic_box`, `block_replaced_box_layout`,
-floats) the argument is the containing block; `absolute_replaced` passes the tuple
-`(cb_x, cb_y, cb_width, cb_height)` whose element `[0]` is an x-coordinate. -/
-theorem used_size_ratio_only_partial (i : Intr) (cb : Cb) (b : RBox) (r : Rat)
+block-level width equation applied to the containing block the caller passes.  Every caller passes
+the containing block of the box: the in-flow ones (`atomic_box`, `block_replaced_box_layout`, floats)
+directly, `absolute_replaced` as the tuple `(cb_width, cb_height)` since repair a8f8a59 — see
+`abs_replaced_uses_containing_block_width` below, which completes what used to be the `_partial`
+form of this theorem (finding `abs-replaced-ratio-only-width`, fixed). -/
+theorem used_size_ratio_only (i : Intr) (cb : Cb) (b : RBox) (r : Rat)
     (hw : b.width = none) (hh : b.height = none) (hi : i.w = none) (hr : i.ratio = some r) (hih : i.h = none) :
     rbwCore i cb b = blockLevelWidth b cb ∧
     (b.marginLeft = some 0 → b.marginRight = some 0 → b.pb = 0 → b.minWidth ≤ cb.width → b.maxWidth = none →
@@ -137,6 +139,31 @@ theorem used_size_ratio_only_partial (i : Intr) (cb : Cb) (b : RBox) (r : Rat)
   refine ⟨blwCore b cb, ?_, hcore⟩
   simp [blockLevelWidth, withMinMaxWidth, mmwMax, mmwMin, hcore, hmw, hmn, num, bind, Except.bind, pure,
     Except.pure, not_lt.mpr hmin]
+
+/-- `absolute_replaced` sizes the box exactly as the in-flow inline case does against a containing
+block of width `cb_width` (ltr): the position `(cb_x, cb_y)` and the height of the containing block
+play no part in the used size.  In particular a ratio-only image (SVG with a `viewBox` only), both
+sizes auto, no margins / paddings / borders, gets the width of its containing block wherever that
+block lies (CSS 2.1 10.3.8 → 10.3.2). -/
+theorem abs_replaced_uses_containing_block_width (sa : Bool) (i : Intr) (cbX cbY cbW cbH : Rat) (b : RBox) :
+    absoluteReplacedWH sa i cbX cbY cbW cbH b = inlineReplacedWH sa i ⟨cbW, false⟩ b ∧
+    (∀ cbX' cbY' cbH', absoluteReplacedWH sa i cbX' cbY' cbW cbH' b = absoluteReplacedWH sa i cbX cbY cbW cbH b) ∧
+    (∀ r, b.width = none → b.height = none → i.w = none → i.h = none → i.ratio = some r →
+      b.marginLeft = some 0 → b.marginRight = some 0 → b.pb = 0 → b.minWidth ≤ cbW → b.maxWidth = none →
+      ∃ b', rbwCore i ⟨cbW, false⟩ b = .ok b' ∧ b'.width = some cbW) :=
+  ⟨rfl, fun _ _ _ => rfl, fun r hw hh hi hih hr hml hmr hpb hmin hmax =>
+    (used_size_ratio_only i ⟨cbW, false⟩ b r hw hh hi hr hih).2 hml hmr hpb hmin hmax⟩
+
+/-- Regression for the fixed finding `abs-replaced-ratio-only-width` (same input as the former
+witness): containing block at x = 40 (and at x = 0), 200 wide: the used size is 200 x 100. -/
+example :
+    (absoluteReplacedWH true ⟨none, none, some 2⟩ 40 0 200 300
+      ⟨none, none, some 0, some 0, some 0, some 0, 0, 0, 0, 0, 0, none, 0, none, 0, false⟩).toOption.map
+        (fun b => (b.width, b.height)) = some (some 200, some 100) ∧
+    (absoluteReplacedWH true ⟨none, none, some 2⟩ 0 0 200 300
+      ⟨none, none, some 0, some 0, some 0, some 0, 0, 0, 0, 0, 0, none, 0, none, 0, false⟩).toOption.map
+        (fun b => (b.width, b.height)) = some (some 200, some 100) := by
+  constructor <;> decide +kernel
 
 /-- A specified (or resolved) width outside `[min-width, max-width]` is clamped: the used width of
 `replaced_box_width` lies in `[min, max(min, max)]`; likewise `replaced_box_height`. -/
@@ -170,6 +197,87 @@ theorem used_size_total (i : Intr) (cb : Cb) (b : RBox) :
     refine ⟨{ b2 with width := some r.1, height := some r.2 }, ?_⟩
     simp [bind, Except.bind, h1, h2, minMaxAutoReplaced, hw2, hh2, num, mmarCore, hr', pure, Except.pure]
 
+
+/-! ## C13.document — from the computed style of an `<img>` to its used size
+
+The function-level theorems above, composed as the layout composes the functions (`Model/ReplacedDoc.lean`:
+`resolve_percentages`, then `inline_replaced_box_layout`); the same composition is compared with rendered
+documents by the `documents` section (`docimg` lines). -/
+
+/-- **Intrinsic size divided by `image-resolution` by default**: an inline `<img>` showing a raster image
+of `pw × ph` pixels, every sizing property at its initial value (`width`, `height` auto, no min / max), in
+any containing block and with any margins, paddings and borders, is `pw / res × ph / res`. -/
+theorem doc_image_default_size (c : CssBox) (cb : Cb) (cbh : Len) (cx py pw ph res : Rat)
+    (hpw : 0 < pw) (hph : 0 < ph) (hres : 0 < res)
+    (hw : c.width = none) (hh : c.height = none) (hminw : c.minWidth = none) (hminh : c.minHeight = none)
+    (hmaxw : c.maxWidth = none) (hmaxh : c.maxHeight = none) :
+    ∃ b x y, docImage false c cb cbh cx py pw ph res (pw / ph) = .ok (b, x, y) ∧
+      b.width = some (pw / res) ∧ b.height = some (ph / res) := by
+  obtain ⟨r1, r2, r3, r4, r5, r6⟩ := resolve_auto c cb.width cbh cx hw hh hminw hminh hmaxw hmaxh
+  have hres0 : res ≠ 0 := ne_of_gt hres
+  have hratio : pw / ph = (pw / res) / (ph / res) := by field_simp
+  set b0 := resolvePercentages c cb.width cbh cx with hb0
+  set b1 : RBox := { b0 with
+    marginTop := some (b0.marginTop.getD 0), marginRight := some (b0.marginRight.getD 0),
+    marginBottom := some (b0.marginBottom.getD 0), marginLeft := some (b0.marginLeft.getD 0) } with hb1
+  obtain ⟨b', hb', hw', hh'⟩ := used_size_intrinsic ⟨some (pw / res), some (ph / res), some (pw / ph)⟩ cb b1
+    (pw / res) (ph / res) (by simp [hb1, r1]) (by simp [hb1, r2]) rfl rfl (by rw [hratio])
+    (div_pos hpw hres) (div_pos hph hres)
+    (by simp [hb1, r3, r5, viol, capMax, gtMax, not_lt.mpr (le_of_lt (div_pos hpw hres))])
+    (by simp [hb1, r4, r6, viol, capMax, gtMax, not_lt.mpr (le_of_lt (div_pos hph hres))])
+  refine ⟨b', b'.positionX, py, ?_, hw', hh'⟩
+  simp [docImage, rasterIntrinsic, pyDiv, hres0, bind, Except.bind, pure, Except.pure, docImageI, hw, hh,
+    inlineReplacedBoxLayout, ← hb0, ← hb1, hb']
+
+example : ∃ b x y, docImage false ⟨none, none, none, none, none, none, some (.px 3), none, none, none, .px 1, .pct 10, 2, 0⟩
+    ⟨200, false⟩ none 0 0 8 4 2 (8 / 4) = .ok (b, x, y) ∧ b.width = some (8 / 2) ∧ b.height = some (4 / 2) :=
+  doc_image_default_size _ _ _ _ _ 8 4 2 (by norm_num) (by norm_num) (by norm_num) rfl rfl rfl rfl rfl rfl
+
+/-- Percentages: `width`, `min-width`, `max-width`, horizontal margins and paddings of an image resolve
+against the *width* of the containing block; a percentage `height` against its height and to `auto` when
+that height is `auto` (CSS 2.1 10.5). -/
+theorem doc_percentages (c : CssBox) (cbw px : Rat) (cbh : Len) (v : Rat) :
+    (c.width = some (.pct v) → (resolvePercentages c cbw cbh px).width = some (cbw * v / 100)) ∧
+    (c.height = some (.pct v) → cbh = none → (resolvePercentages c cbw cbh px).height = none) ∧
+    (∀ ch, c.height = some (.pct v) → cbh = some ch → (resolvePercentages c cbw cbh px).height = some (ch * v / 100)) ∧
+    (c.maxWidth = some (.pct v) → (resolvePercentages c cbw cbh px).maxWidth = some (cbw * v / 100)) ∧
+    (c.width = some (.px v) → (resolvePercentages c cbw cbh px).width = some v) := by
+  refine ⟨?_, ?_, ?_, ?_, ?_⟩
+  · intro h; cases cbh <;> simp [resolvePercentages, h, percentage]
+  · intro h hc; subst hc; simp [resolvePercentages, h]
+  · intro ch h hc; subst hc; simp [resolvePercentages, h, percentage]
+  · intro h; cases cbh <;> simp [resolvePercentages, h, percentage]
+  · intro h; cases cbh <;> simp [resolvePercentages, h, percentage]
+
+
+/-- **A specified size is clamped by `min-width` / `max-width` resolved against the containing block's width**,
+for the whole pipeline from the computed style (percentages included) to the used width. -/
+theorem doc_image_within_min_max (c : CssBox) (cb : Cb) (cbh : Len) (cx py pw ph res ratio : Rat)
+    (b : RBox) (x y : Rat) (hspec : (c.width.isNone && c.height.isNone) = false)
+    (h : docImage false c cb cbh cx py pw ph res ratio = .ok (b, x, y)) :
+    let minW : Rat := match c.minWidth with | some d => percentage d cb.width | none => 0
+    let maxW : MaxLen := c.maxWidth.map (fun d => percentage d cb.width)
+    ∃ w, b.width = some w ∧ minW ≤ w ∧ (w = minW ∨ ∀ m, maxW = some m → w ≤ m) := by
+  intro minW maxW
+  unfold docImage at h
+  simp only [bind, Except.bind] at h
+  rcases hi : rasterIntrinsic pw ph res ratio with e | i
+  · simp [hi] at h
+  · simp only [hi, docImageI, hspec, Bool.false_eq_true, if_false, bind, Except.bind, pure, Except.pure] at h
+    rcases h1 : inlineReplacedBoxLayout false i cb (resolvePercentages c cb.width cbh cx) with e | b1
+    · simp [h1] at h
+    · simp [h1] at h
+      obtain ⟨rfl, _, _⟩ := h
+      obtain ⟨w, hw, hge, hor⟩ := irl_bounds i cb _ b1 h1
+      have hmin : (resolvePercentages c cb.width cbh cx).minWidth = minW := by
+        cases cbh <;> rfl
+      have hmax : (resolvePercentages c cb.width cbh cx).maxWidth = maxW := by
+        cases cbh <;> rfl
+      exact ⟨w, hw, by rw [← hmin]; exact hge, by rw [← hmin, ← hmax]; exact hor⟩
+
+example : (docImage false ⟨some (.pct 100), none, none, none, some (.pct 25), none, none, none, none, none, .px 0, .px 0, 0, 0⟩
+    ⟨200, false⟩ none 0 0 8 4 1 (8 / 4)).toOption.map (fun r => (r.1.width, r.1.height)) = some (some 50, some 25) := by
+  decide +kernel
 
 /-! ## C13.minmax_table — CSS 2.1 10.4, `min_max_auto_replaced` -/
 
@@ -581,7 +689,7 @@ theorem rasterInit_mode (s : Src) (o : Opts) (r : Raster) (h : rasterInit s o = 
 
 /-- **An image with an alpha channel or transparency information gets an `/SMask`; one without does
 not.**  For every image that Pillow's decoders can produce (`JPEG`/`MPO` files decode to `L`, `RGB` or
-`CMYK`) except palette-with-alpha (`PA`, see `Witness.unwritable_mode_raises`), whatever the options and
+`CMYK`) except palette-with-alpha (`PA`: never embedded, see `Witness.unwritable_mode_not_loaded`), whatever the options and
 the orientation, whenever the image is embedded at all. -/
 theorem embed_smask_iff_alpha (s : Src) (o : Opts) (r : Raster) (x : XObject)
     (h : embed s o = .ok (r, x)) (hpa : s.mode ≠ .PA)
@@ -638,6 +746,54 @@ theorem embed_lossless (s : Src) (o : Opts) (r : Raster) (h : rasterInit s o = .
   · intro hjf hmode
     simp only [faithful, hjf, hm]
     cases t <;> cases m <;> simp_all [normalise]
+
+/-- **The image loader never aborts the rendering on an image Pillow has opened** (repair d7dc388; it is
+a function into `Option`, `none` = "Failed to load image", alternative text rendered), and it refuses an
+image exactly when the encoder of its path cannot write the normalised mode: the JPEG path for a
+JPEG/MPO file that kept its format, the PNG path otherwise — and then only when the data has to be
+re-encoded (no source bytes, `optimize_images`, `jpeg_quality`, or a non-PNG source). -/
+theorem load_refuses_iff (s : Src) (o : Opts) :
+    loadRaster s o = none ↔
+      (let n := normalise s.mode s.transparency
+       let fmt := if n.2 then Fmt.other else s.format
+       let noData := !(s.hasData && !s.rotated)
+       if fmt == .jpeg || fmt == .mpo then (noData || o.optimize || o.quality) && !jpegWritable n.1
+       else (noData || o.optimize || fmt != .png) && !pngWritable n.1) = true := by
+  unfold loadRaster rasterInit
+  rcases hn : normalise s.mode s.transparency with ⟨m, c⟩
+  simp only []
+  split_ifs <;> simp_all
+
+/-- Every image whose normalised mode is one of the four that PDF image XObjects carry natively
+(`L`, `LA`, `RGB`, `RGBA` — i.e. every PNG / GIF / WEBP / BMP / TIFF of mode `1`, `L`, `LA`, `P`, `RGB`,
+`RGBA`, `I`, and anything with transparency information) and which does not come from a JPEG file is
+loaded, whatever the options and the orientation; so is every JPEG / MPO of mode `L`, `RGB`, `CMYK`. -/
+theorem load_total (s : Src) (o : Opts) :
+    ((s.format ≠ .jpeg ∧ s.format ≠ .mpo) →
+      (s.transparency = true ∨ s.mode = .bilevel ∨ s.mode = .L ∨ s.mode = .LA ∨ s.mode = .P ∨ s.mode = .RGB ∨
+        s.mode = .RGBA ∨ s.mode = .I) → (loadRaster s o).isSome = true) ∧
+    ((s.format = .jpeg ∨ s.format = .mpo) → s.transparency = false →
+      (s.mode = .L ∨ s.mode = .RGB ∨ s.mode = .CMYK) → (loadRaster s o).isSome = true) := by
+  rcases s with ⟨m, t, f, a, rot, hd⟩
+  rcases o with ⟨op, q⟩
+  constructor
+  · rintro ⟨h1, h2⟩ hm
+    cases t <;> cases f <;> cases m <;> simp_all [loadRaster, rasterInit, normalise, pngWritable, jpegWritable] <;>
+      (split_ifs <;> simp)
+  · rintro hf rfl hm
+    rcases hf with rfl | rfl <;> rcases hm with rfl | rfl | rfl <;>
+      simp [loadRaster, rasterInit, normalise, pngWritable, jpegWritable] <;> (split_ifs <;> simp)
+
+/-- `loadRaster` / `loadEmbed` are `rasterInit` / `embed` with the exception turned into `none`. -/
+theorem load_eq_embed (s : Src) (o : Opts) :
+    loadEmbed s o = (embed s o).toOption ∧ loadRaster s o = (rasterInit s o).toOption := by
+  unfold loadEmbed loadRaster embed
+  rcases rasterInit s o with e | r <;> simp [Except.toOption]
+
+example : loadRaster ⟨.CMYK, false, .other, false, false, true⟩ ⟨false, false⟩ = none ∧
+    (loadRaster ⟨.CMYK, false, .jpeg, true, false, true⟩ ⟨false, false⟩).isSome = true ∧
+    (loadRaster ⟨.P, true, .other, false, true, true⟩ ⟨true, true⟩).isSome = true := by
+  refine ⟨?_, ?_, ?_⟩ <;> decide +kernel
 
 example : (embed ⟨.P, true, .png, false, false, true⟩ ⟨false, false⟩).toOption =
     some (⟨.RGBA, false, true, false⟩, ⟨"/DeviceRGB", "/FlateDecode", true, true, false⟩) := by decide +kernel
